@@ -1,5 +1,7 @@
 import ESV.Cache.Lemmas
 import ESV.Cache.Objects
+import ESV.Cache.Shared
+import ESV.Gen.Shared
 /-
 C11 — Results depend only on the input, not on what was processed before.
 K3: theorems about the memo-table protocol of graph_utils.py (model: ESV/Cache/Model.lean) under ALL histories, and two
@@ -134,6 +136,12 @@ example : ¬ Disciplined ([.alloc 3 1, .clear 3, .lookup 3 0 5, .lookup 3 0 6, .
 /-- a store section without its lookup section in a fresh process raises KeyError (`Guarded` excludes it) -/
 example : run rcW fresh ([.alloc 3 1, .store 3 0 0] : List (MOp Nat Nat Nat)) = [.ok, .keyError] ∧
     ¬ Guarded ([.alloc 3 1, .store 3 0 0] : List (MOp Nat Nat Nat)) := by decide
+
+/-- Table lemma: the process-wide state the current /repo source can write (regenerated AST inventory: mutable default arguments,
+module/class-level objects mutated by functions and how, `global`s, interpreter settings, the parsers' shared caches) is exactly
+the list the history model accounts for (ESV/Cache/Shared.lean): the memo table (covered by the theorems above), the parsers'
+caches (exploration only), definition-time constants. -/
+theorem history_state_inventory_pinned : Gen.sharedWrites = Cache.modelledSharedKeys := by decide +kernel
 
 /-! ### decompilation does not alter the meaning of the caller's ops -/
 
